@@ -267,9 +267,10 @@ func runC15Frames(cs CaseSpec) *CaseResult {
 	}
 	nw.FairCycles(10)
 	checked := 0
+	resetsDone := map[int]int{}
 	for _, n := range nw.upReal() {
 		st := n.Core.Hg().Store
-		for i := 0; i <= st.LastBlockIndex(); i++ {
+		for i := st.LastBlockIndex(); i >= 0; i-- {
 			b, err := st.GetBlock(i)
 			if err != nil {
 				continue
@@ -338,6 +339,45 @@ func runC15Frames(cs CaseSpec) *CaseResult {
 			if !bytes.Equal(fh1, fh4) {
 				res.violate("C15", "C15:frame-hash-depends-on-map-order", fmt.Sprintf("node %d round %d: frame hash changes when its maps are filled in another order", n.Idx, f.Round), nil)
 				return res
+			}
+			// a node that resets itself from this block and frame (as received over
+			// the transport) derives the same membership facts as the sender,
+			// whatever the order in which the frame's maps are walked: the first
+			// round of every participant decides who gets a root in later frames,
+			// and thereby later frame hashes
+			if len(out.Frame.PeerSets) >= 2 && resetsDone[n.Idx] < 12 {
+				resetsDone[n.Idx]++
+				for k := 0; k < 6; k++ {
+					var blk hg.Block
+					var frm hg.Frame
+					if wireCopy(&out.Block, &blk) != nil || wireCopy(&out.Frame, &frm) != nil {
+						break
+					}
+					rs := hg.NewInmemStore(2000)
+					rh := hg.NewHashgraph(rs, func(*hg.Block) error { return nil }, quietLogger())
+					rh.Init(peers.NewPeerSet(clonePeers(nw.Genesis)))
+					if err := rh.Reset(&blk, &frm); err != nil {
+						rs.Close()
+						res.count("encoding_resets_refused", 1)
+						break
+					}
+					res.count("encoding_stores_reset_from_a_transported_frame", 1)
+					for _, p := range st.RepertoireByID() {
+						want, wok := st.FirstRound(p.ID())
+						got, gok := rs.FirstRound(p.ID())
+						if _, known := rs.RepertoireByID()[p.ID()]; !known {
+							continue // joined after this frame
+						}
+						res.count("encoding_first_round_comparisons", 1)
+						if wok != gok || want != got {
+							res.violate("C15", "C15:membership-facts-depend-on-who-reads-the-frame",
+								fmt.Sprintf("node %d round %d: participant %s first belongs to a validator set in round %d according to the sender, and in round %d (known: %v) according to a node that reset itself from the transported frame (attempt %d of 6; the frame lists %d validator sets)", n.Idx, f.Round, p.Moniker, want, got, gok, k+1, len(out.Frame.PeerSets)), nil)
+							rs.Close()
+							return res
+						}
+					}
+					rs.Close()
+				}
 			}
 			// events inside the frame keep their hashes and signatures
 			for _, fe := range out.Frame.Events {
